@@ -11,6 +11,35 @@ from harness import dfgen as G
 from harness import matcoq as M
 
 PROP = "C02"
+
+# Clause-by-clause map of the property to the oracle keys that judge it and the generator dimensions that exercise
+# it.  One generator kind (gen_case; thorough adds exhaustive_orders) with the dimensions named on the right.
+CLAUSES = [
+    ("row i (features and target) describes DataFrame row i by position, whatever the index labels are",
+     ["position:<stype>", "position:y", "position:text_tokenized", "relabel-tensorframe:*", "relabel-raises:*",
+      "operator-eq:relabel"],
+     ["label_kind offset/perm/string/dup/positions x method assign/set_index/iloc/concat x index_name"]),
+    ("... and whatever order the columns are in", ["colperm-tensorframe:*", "colperm-raises:*", "both-*", "operator-eq:*"],
+     ["perm (column order), forms.stype_order (col_to_stype order != frame order)"]),
+    ("feature columns grouped by stype with names sorted within each group", ["schema-names"], ["mixed-case names (dfgen)"]),
+    ("text-/image-embedded columns merged behind the embedding columns under the embedding group",
+     ["schema-names", "position:text_embedded", "position:image_embedded", "lookup-by-name*", "schema-emb-dim"],
+     ["FAMILY frames (embedding sorting before / between / after children)"]),
+    ("the target never appears among the features", ["schema-target-in-features", "schema-y"], ["with / without target"]),
+    ("the frame has exactly len(df) rows", ["schema-num-rows", "schema-feat-shape", "sizes"],
+     ["rows (incl. repeated positions), unlabeled target rows first/last/some/all"]),
+    ("task type (regression / binary / multiclass) and class count match the target column",
+     ["task-type", "num-classes", "*-task_type", "*-num_classes"], ["target numerical / categorical (2 or more classes)"]),
+    ("an equal DataFrame with relabelled index or permuted columns gives an equal TensorFrame and equal statistics",
+     ["relabel-*", "colperm-*", "both-*", "*-stats", "operator-eq:*"], ["variants A/B/C/D"]),
+    ("(history) later conversions through the dataset's converter reproduce the materialized frame",
+     ["reconvert:*", "reconvert-raises:*"], ["again: same / relabelled / permuted / both / same-2 / no-target"]),
+]
+# Public signature (forms drawn by matcoq.draw_forms; histogram in stats()['forms'], fail-closed in sanity()):
+#   Dataset(...) keyword / positional, col_to_stype order, split_col, col_to_sep / col_to_time_format as dict / single /
+#   partial dict / None, embedder / tokenizer cfg as dict / single config; materialize(device None / 'cpu' / torch.device);
+#   converter(df) / converter(df, device) / converter(df, device=...); TensorFrame ==, !=, len(), num_rows, num_cols;
+#   Dataset.num_rows / len(); get_col_feat(name) / (name, return_stype=True).
 HEADER = M.HEADER
 MODEL_TARGETS = M.MODEL_TARGETS
 SHARD = 40
@@ -98,8 +127,10 @@ def gen_case(rng):
     iname = rng.wpick([(4, None), (2, "data"), (1, "index"), (2, "col"), (1, "level_0")])
     if iname == "col":
         iname = rng.pick(fr["col_order"])
+    forms = M.draw_forms(rng, fr)
+    forms["path"] = False
     return {"frame": fr, "rows": rows, "label_kind": kind, "method": method, "perm": perm,
-            "split": rng.randint(0, len(rows)), "index_name": iname, "unlabeled": unlabeled}
+            "split": rng.randint(0, len(rows)), "index_name": iname, "unlabeled": unlabeled, "forms": forms}
 
 
 def exhaustive_orders(rng):
@@ -165,10 +196,19 @@ def relabelled_df(case, eff, col_order):
     return df
 
 
-def materialize(eff, df):
-    ds, stubs = G.build_dataset(eff, df=df)
-    ds.materialize()
-    out = {"tf": G.read_tf(ds.tensor_frame), "stats": G.read_stats(ds.col_stats), "columns": list(df.columns),
+def materialize(eff, df, forms=None):
+    forms = forms or {}
+    ds, stubs, used = M.make_dataset(eff, df=df, forms=forms)
+    dev = M.device_arg(forms.get("device"))
+    used["device"] = forms.get("device", "none")
+    if dev is None:
+        ds.materialize()
+    else:
+        ds.materialize(device=dev)
+    tf = ds.tensor_frame
+    out = {"tf": G.read_tf(tf), "stats": G.read_stats(ds.col_stats), "columns": list(df.columns), "used": used,
+           "sizes": {"len_tf": len(tf), "num_rows": tf.num_rows, "num_cols": tf.num_cols, "ds_num_rows": ds.num_rows,
+                     "len_ds": len(ds)},
            "index_name": df.index.name,
            "labels": [x if isinstance(x, str) else int(x) for x in df.index.tolist()]}
     # black boxes, recorded for the correspondence: what the user callables returned, cell by cell
@@ -183,10 +223,13 @@ def materialize(eff, df):
     out["embedded"], out["tokenized"] = emb, tok
     # lookup by name: TensorFrame.get_col_feat for every column the frame lists
     by_name = {}
+    rs = bool(forms.get("return_stype"))
+    used["return_stype"] = rs
     for names in ds.tensor_frame.col_names_dict.values():
         for name in names:
             try:
-                by_name[name] = G.read_feat(ds.tensor_frame.get_col_feat(name))
+                r = ds.tensor_frame.get_col_feat(name, return_stype=True)[0] if rs else ds.tensor_frame.get_col_feat(name)
+                by_name[name] = G.read_feat(r)
             except Exception as ex:
                 by_name[name] = {"exc": C.exc_name(ex), "msg": str(ex)[:200]}
     out["by_name"] = by_name
@@ -203,20 +246,29 @@ def materialize(eff, df):
 def run(case):
     eff = effective(case)
     obs = {"ok": True, "variants": {}, "again": {}}
-    dfs, ds_a = {}, None
+    dfs, tfs, ds_a = {}, {}, None
     plans = [("A", "base", case["frame"]["col_order"]), ("B", "relabel", case["frame"]["col_order"]),
              ("C", "base", case["perm"]), ("D", "relabel", case["perm"])]
     for tag, how, order in plans:
         try:
             df = G.build_df(eff, col_order=order) if how == "base" else relabelled_df(case, eff, order)
             dfs[tag] = df
-            o, ds = materialize(eff, df)
+            o, ds = materialize(eff, df, case.get("forms"))
+            tfs[tag] = ds.tensor_frame
             if tag == "A":
                 o["parsed"] = {c["name"]: M.parse_timestamps(ds.df, c) for c in eff["cols"] if c["stype"] == "timestamp"}
                 ds_a = ds
             obs["variants"][tag] = dict(o, ok=True)
         except Exception as ex:
             obs["variants"][tag] = {"ok": False, "exc": C.exc_name(ex), "msg": str(ex)[:300], "tb": C.fmt_exc()}
+    # the public equality operators between the four materialized frames
+    obs["eq"] = {}
+    for tag in ("A", "B", "C", "D"):
+        if "A" in tfs and tag in tfs:
+            try:
+                obs["eq"][tag] = [bool(tfs["A"] == tfs[tag]), bool(tfs[tag] == tfs["A"]), bool(tfs["A"] != tfs[tag])]
+            except Exception as ex:
+                obs["eq"][tag] = {"exc": C.exc_name(ex), "msg": str(ex)[:200]}
     # HISTORY: later conversions through the converter that materialization left behind (dataset A): the same
     # frame again, the relabelled frame, the column-permuted frame, both, and the frame without its target column
     if ds_a is not None:
@@ -228,7 +280,9 @@ def run(case):
             if df is None:
                 continue
             try:
-                tf2 = ds_a.convert_to_tensor_frame(df)
+                dev = M.device_arg((case.get("forms") or {}).get("device"))
+                conv = ds_a.convert_to_tensor_frame
+                tf2 = conv(df) if dev is None else (conv(df, dev) if tag in ("same", "permuted") else conv(df, device=dev))
                 by_name = {}
                 for names in tf2.col_names_dict.values():
                     for name in names:
@@ -315,6 +369,23 @@ def oracle(case, obs):
             if o.get(attr) != A.get(attr):
                 return dict(key=f"{kind}-{attr}", what=f"{attr} differs with {what[tag]}", expected=A.get(attr),
                             observed=o.get(attr))
+    for tag, r in obs.get("eq", {}).items():
+        kind = {"A": "reflexive", "B": "relabel", "C": "colperm", "D": "both"}[tag]
+        if isinstance(r, dict):
+            return dict(key=f"operator-eq-raises:{r['exc']}", what=f"tensor_frame == tensor_frame raised {r['exc']}: {r['msg']}")
+        if r != [True, True, False]:
+            tcol = next((c for c in eff["cols"] if c["name"] == eff["target"]), None)
+            nan_y = tcol is not None and tcol["stype"] == "numerical" and any(v is None for v in tcol["cells"])
+            wh = "the materialized frame itself" if tag == "A" else "the frame materialized with " + what[tag]
+            return dict(key="tensorframe-eq-nan-target" if nan_y else f"operator-eq:{kind}",
+                        what=f"(A == X, X == A, A != X) = {r} for X = {wh}; equal DataFrames must give equal TensorFrames"
+                             + (" (y holds NaN for an unlabeled row: TensorFrame.__eq__ compares y without equal_nan, "
+                                "features with it)" if nan_y else ""))
+    sz = A.get("sizes")
+    if sz and (sz["len_tf"] != eff["n"] or sz["num_rows"] != eff["n"] or sz["ds_num_rows"] != eff["n"] or sz["len_ds"] != eff["n"]
+               or sz["num_cols"] != len(eff["cols"]) - (1 if eff["target"] else 0)):
+        return dict(key="sizes", what=f"len(tf) / num_rows / num_cols / dataset sizes {sz} for a frame of {eff['n']} rows "
+                    f"and {len(eff['cols']) - (1 if eff['target'] else 0)} feature columns")
     # (a') every LATER conversion through the dataset's converter equals the materialized frame, cell by cell and
     #      name by name (without the target column: the same features and no y)
     for tag, o in obs.get("again", {}).items():
@@ -478,6 +549,9 @@ def stats(cases, obss):
         fr = c["frame"]
         d["label_kind"][c["label_kind"]] = d["label_kind"].get(c["label_kind"], 0) + 1
         d["method"][c["method"]] = d["method"].get(c["method"], 0) + 1
+        for v in (o or {}).get("variants", {}).values():
+            M.count_forms(d, v.get("used"))
+        d["eq_operator_uses"] = d.get("eq_operator_uses", 0) + len((o or {}).get("eq", {}))
         iname = c.get("index_name")
         ik = iname if iname in (None, "data", "index", "level_0") else "like-a-column"
         d.setdefault("index_name", {})
@@ -603,6 +677,11 @@ def sanity(cases, obss):
             probs.append(f"target kind {t} never drawn")
     if d["dup_labels"] == 0:
         probs.append("duplicated labels never drawn")
+    for k in M.missing_forms(d, extra=["cfg=single", "cfg=dict"]):
+        if k != "path=True":
+            probs.append(f"signature form {k} never drawn")
+    if d.get("eq_operator_uses", 0) == 0:
+        probs.append("TensorFrame == never exercised")
     for k in ("numerical/first", "numerical/last", "numerical/all", "categorical/first", "categorical/last"):
         if d.get("unlabeled_target", {}).get(k, 0) == 0:
             probs.append(f"target with unlabeled rows ({k}) never drawn")
